@@ -124,7 +124,9 @@ def words_in(*texts):
 # strategies shared by the sub-checks
 
 ident = st.text(alphabet=ALNUM, min_size=1, max_size=6)
-segment = st.one_of(st.sampled_from(WORDS), st.sampled_from(WORDS), ident)
+# (shrinks towards a plain identifier, 'restart' last)
+_W = [w for w in WORDS if w != "restart"] + ["restart"]
+segment = st.one_of(ident, st.sampled_from(_W), st.sampled_from(_W))
 
 
 @st.composite
